@@ -68,6 +68,10 @@ __CPROVER_assigns(buf_ret != NULL: *buf_ret)
 __CPROVER_assigns(buf_size_ret != NULL: *buf_size_ret)
 __CPROVER_ensures(__CPROVER_return_value == 0)
 __CPROVER_ensures(buf_ret != NULL ==> VF_PTR_INSIDE(*buf_ret, buf, buf_size))
+/* (the same fact as a pointer EQUALITY with an expression over buf: when the clause is assumed at
+ * a call site this gives the havocked *buf_ret the points-to set of buf, so that later
+ * dereferences of it read the real bytes) */
+__CPROVER_ensures(buf_ret != NULL ==> *buf_ret == buf + (VF_OFF(*buf_ret) - VF_OFF(buf)))
 __CPROVER_ensures(buf_size_ret != NULL ==> *buf_size_ret <= buf_size)
 /* pointer and length describe the same suffix */
 __CPROVER_ensures((buf_ret != NULL && buf_size_ret != NULL) ==>
@@ -76,7 +80,10 @@ __CPROVER_ensures((buf_ret != NULL && buf_size_ret != NULL) ==>
 __CPROVER_ensures((buf_ret != NULL && buf_size_ret != NULL) ==>
     (*buf_size_ret == 0 || __CPROVER_r_ok(*buf_ret, *buf_size_ret)))
 /* content: the suffix is empty or starts with a byte that is not white space (>= 33) */
-__CPROVER_ensures((buf_ret != NULL && VF_OFF(*buf_ret) - VF_OFF(buf) < buf_size) ==> (*buf_ret)[0] >= 33)
+/* (read through `buf`: a dereference of the havocked *buf_ret has no points-to set when this
+ * clause is assumed at a call site) */
+__CPROVER_ensures((buf_ret != NULL && VF_OFF(*buf_ret) - VF_OFF(buf) < buf_size) ==>
+    buf[VF_OFF(*buf_ret) - VF_OFF(buf)] >= 33)
 ;
 
 /* ----------------------------------------------------------------- skip_spwsp2 ---- */
